@@ -182,8 +182,16 @@ PROPS = {
         "tests": [
             T("TestC14Build", "codec", 30000, 3000000, shards=8),
             T("TestC14Parse", "codec", 60000, 6000000, shards=8),
+            # invariant part: every value Lightning Stream writes is re-read with the independent reader
+            # inside these harnesses (shadow captures/merges/projections, native merges, all format versions)
+            T("TestC11Mirror", "kv", 1500, 160000, shards=16),
+            T("TestC18Atomic", "kv", 1500, 160000, shards=16),
+            T("TestC02Merge", "kv", 10000, 1600000, shards=16),
         ],
-        "assumptions": ["the header table in docs/schema-native.md is the specification (independent reader in harness/internal/model/header.go)"],
+        "assumptions": [
+            "the header table in docs/schema-native.md is the specification (independent reader in harness/internal/model/header.go)",
+            "the invariant part re-reads what LS wrote in the C02/C11/C18 harnesses: version 0, flags within the synced set, reserved bytes zero, extension count matching the bytes present, transaction id of the writing transaction, deleted => empty value",
+        ],
     },
     "C16": {
         "level": "exploration",
@@ -196,6 +204,20 @@ PROPS = {
             "the memory limits are observed through the lightningstream_climit_active gauges; the gauge is decremented just after the token is returned, so only an overshoot that persists over 4 samples counts",
             "own-instance snapshots exist only before start-up (a running instance publishes its own snapshots itself)",
             "run-once mode (program ends by itself after merging the start-up snapshots) is checked with the scheduler harness in the fleet package",
+        ],
+    },
+    "C17": {
+        "level": "exploration",
+        "tests": [
+            T("TestC17Topics", "conc", 400, 48000, shards=16, qshards=4, race=True, gomaxprocs=[4, 2, 1, 16]),
+            T("TestC17Climit", "conc", 400, 48000, shards=16, qshards=2, race=True, gomaxprocs=[4, 2, 1, 16]),
+            T("TestC17Storage", "conc", 600, 48000, shards=8, qshards=2, race=True, gomaxprocs=[4, 2, 1, 16]),
+            T("TestC17Instance", "conc", 240, 24000, shards=16, qshards=4, race=True, gomaxprocs=[4, 2, 8, 16]),
+        ],
+        "assumptions": [
+            "a race detector / schedule-fuzzing search: only interleavings that actually ran are covered; the scenario structure (who does what, how often, with which pauses) is generated, the interleaving is the Go scheduler's, GOMAXPROCS varied over shards",
+            "subscribers keep receiving until they close (a subscriber that neither receives nor closes blocks the publisher by design)",
+            "a wedge is reported only when the same goroutines are seen blocked inside repository code in two dumps 1 s apart after a 5 s bound",
         ],
     },
     "C18": {
